@@ -12,6 +12,8 @@ import WzVerif.Lemmas.HttpOpt3
 import WzVerif.Lemmas.HttpEtag
 import WzVerif.Lemmas.HttpAuth
 import WzVerif.Lemmas.HttpCsp
+import WzVerif.Lemmas.DateText
+import WzVerif.Model.IfRange
 namespace Wz.Props.C06
 open Wz Wz.Http
 
@@ -471,5 +473,145 @@ example : SchemeOk "digest".toList = true
 theorem param_auth_roundtrip_needs_nonempty :
     (authorizationToHeader ⟨"digest".toList, [], none⟩ >>= authorizationFromHeader)
       ≠ .ok (some ⟨"digest".toList, [], none⟩) := by decide
+
+/-! ### HTTP dates -/
+
+open Wz.Date in
+/-- The English day and month names the live `http_date` writes (observed through the public
+function on every run) are three letters each, the month names are pairwise distinct (each is found
+at its own index), and the model formats the probe instant exactly as the live function did. -/
+theorem date_tables :
+    (∀ w, w < 7 → dayOk w = true) ∧ (∀ m, m < 12 → monthOk m = true) ∧
+    httpDate (secondsOfCivil ⟨2024, 2, 3, 4, 5, 6⟩) = Gen.Http.dateSample.toList := by
+  refine ⟨day_table, month_table, ?_⟩
+  decide +kernel
+
+open Wz.Date in
+/-- `parse_date(http_date(t)) == t` for **every second** from 0100-01-01T00:00:00 to
+9999-12-31T23:59:59 UTC (a superset of the property's years 1000..9999): proleptic-Gregorian
+day-number arithmetic (400/100/4/1-year cycles) proved with `omega`, IMF-fixdate text by digit
+arithmetic, names by `decide` over the generated tables. -/
+theorem date_roundtrip (t : Nat) (h1 : tMin ≤ t) (h2 : t ≤ tMax) : parseDate (httpDate t) = some t :=
+  date_roundtrip_any t h1 h2
+
+open Wz.Date in
+example : tMin ≤ 63839700306 ∧ 63839700306 ≤ tMax := by decide
+
+open Wz.Date in
+/-- an aware datetime (civil fields `c`, UTC offset `off` seconds) is normalised to UTC by
+`http_date`; parsing returns the same instant -/
+theorem date_roundtrip_aware (c : Civil) (off : Int) (w : List Char)
+    (h1 : (tMin : Int) ≤ (secondsOfCivil c : Int) - off) (h2 : (secondsOfCivil c : Int) - off ≤ (tMax : Int))
+    (hw : httpDateAware c off = some w) :
+    parseDate w = some ((secondsOfCivil c : Int) - off).toNat := by
+  unfold httpDateAware at hw
+  simp only at hw
+  split at hw
+  · simp at hw
+  · simp only [Option.some.injEq] at hw
+    rw [← hw]
+    exact date_roundtrip_any _ (by omega) (by omega)
+
+open Wz.Date in
+example : httpDateAware ⟨2024, 3, 1, 0, 30, 0⟩ 3600 = some "Thu, 29 Feb 2024 23:30:00 GMT".toList := by decide +kernel
+
+open Wz.Date in
+/-- below year 100 `email.utils` reads the four-digit year as a two-digit one (0099 → 1999) -/
+theorem date_roundtrip_needs_year_100 : parseDate (httpDate (tMin - 1)) ≠ some (tMin - 1) := by decide +kernel
+
+/-! ### If-Range -/
+
+open Wz.Date in
+/-- a date in an `If-Range` header round-trips (with the model's own date parser) -/
+theorem ifRange_date_roundtrip (t : Nat) (h1 : tMin ≤ t) (h2 : t ≤ tMax) :
+    (ifRangeToHeader (.date t)).map (parseIfRange parseDate) = .ok (.date t) := by
+  have hne : (httpDate t).isEmpty = false := by
+    have := date_roundtrip_any t h1 h2
+    cases hq : httpDate t with
+    | nil => rw [hq] at this; simp [parseDate, parseImfFixdate] at this
+    | cons _ _ => rfl
+  simp [ifRangeToHeader, Except.map, parseIfRange, hne, date_roundtrip_any t h1 h2]
+
+/-- an entity tag in an `If-Range` header round-trips **provided the date parser rejects its quoted
+form** — for whatever date parser `pd` is in use (email.utils in the real code). -/
+theorem ifRange_etag_roundtrip_partial (pd : Str → Option Nat) (e : Str) (hq : e.contains '"' = false)
+    (hpd : pd ('"' :: (e ++ ['"'])) = none) :
+    (ifRangeToHeader (.etag e)).map (parseIfRange pd) = .ok (.etag e) := by
+  have h := unquote_quoteEtag e false hq
+  simp only [quoteEtag, hq, Bool.false_eq_true, if_false, Except.map, List.nil_append, List.cons_append] at h
+  simp only [Except.ok.injEq] at h
+  have hq' : ¬ ('"' ∈ e) := by simpa using hq
+  simp [ifRangeToHeader, quoteEtag, hq', Except.map, parseIfRange, hpd, h]
+
+example : (fun _ => none : Str → Option Nat) ('"' :: ("abc".toList ++ ['"'])) = none := rfl
+
+/-- known finding F06a: the hypothesis above cannot be dropped. Any date parser that accepts the
+quoted text `"Thu, 01 Jan 2026 00:00:00 GMT"` — `email.utils` does; the known-finding replay checks
+it on the real code every run — turns that entity tag into a date. -/
+theorem ifRange_etag_roundtrip_full_false (pd : Str → Option Nat) (t : Nat)
+    (hpd : pd "\"Thu, 01 Jan 2026 00:00:00 GMT\"".toList = some t) :
+    (ifRangeToHeader (.etag "Thu, 01 Jan 2026 00:00:00 GMT".toList)).map (parseIfRange pd)
+      ≠ .ok (.etag "Thu, 01 Jan 2026 00:00:00 GMT".toList) := by
+  have hh : ifRangeToHeader (.etag "Thu, 01 Jan 2026 00:00:00 GMT".toList)
+      = .ok "\"Thu, 01 Jan 2026 00:00:00 GMT\"".toList := by decide
+  rw [hh]
+  simp only [Except.map, parseIfRange, hpd]
+  have : "\"Thu, 01 Jan 2026 00:00:00 GMT\"".toList.isEmpty = false := by decide
+  simp [this]
+
+/-! ### parsing is a normal form (on the image of the dumpers; for list and set headers see above
+for arbitrary text) -/
+
+theorem parseDict_normal_form (d : Dict (Option Str))
+    (hk : ∀ x ∈ d, KeyOk x.1 = true) (hnd : (d.map (·.1)).Nodup) :
+    (dumpHeaderDict d >>= parseDictHeader >>= dumpHeaderDict >>= parseDictHeader)
+      = (dumpHeaderDict d >>= parseDictHeader) := by
+  rw [parseDict_dump_any d hk hnd]
+  simp only [ok_bind]
+  exact parseDict_dump_any d hk hnd
+
+theorem parseOptions_normal_form (h : Str) (opts : List (Str × Str)) (hh : HdrOk h = true)
+    (hk : ∀ x ∈ opts, OptKeyOk x.1 = true) (hv : ∀ x ∈ opts, hasPct22 x.2 = false)
+    (hnd : (opts.map (·.1)).Nodup) :
+    (dumpOptionsHeader (some h) (opts.map fun kv => (kv.1, some kv.2)) >>= parseOptionsHeader
+        >>= fun r => dumpOptionsHeader (some r.1) (r.2.map fun kv => (kv.1, some kv.2)) >>= parseOptionsHeader)
+      = (dumpOptionsHeader (some h) (opts.map fun kv => (kv.1, some kv.2)) >>= parseOptionsHeader) := by
+  rw [parseOptions_dump_any h opts hh hk hv hnd]
+  simp only [ok_bind]
+  exact parseOptions_dump_any h opts hh hk hv hnd
+
+theorem etags_normal_form (strong weak : List Str)
+    (hs : ∀ x ∈ strong, TagOk x = true) (hw : ∀ x ∈ weak, TagOk x = true) :
+    parseEtags (etagsToHeader (parseEtags (etagsToHeader ⟨strong.map some, weak.map some, false⟩)))
+      = parseEtags (etagsToHeader ⟨strong.map some, weak.map some, false⟩) := by
+  rw [etags_roundtrip_any strong weak hs hw]
+  exact etags_roundtrip_any strong weak hs hw
+
+/-- for *arbitrary* header text the etag parser is not a normal form: the empty quoted tag `""`
+is stored as Python's `None`, which `to_header` writes as the four letters `None` -/
+theorem etags_normal_form_arbitrary_false :
+    parseEtags (etagsToHeader (parseEtags ['"', '"'])) ≠ parseEtags ['"', '"'] := by decide
+
+theorem range_normal_form (u : Str) (rs : List (Int × Option Int)) (hu : UnitsOk u = true)
+    (hne : rs ≠ []) (hr : rangesOk 0 rs = true) :
+    (parseRangeHeader (rangeToHeader ⟨u, rs⟩) >>= fun r =>
+        match r with | some r => parseRangeHeader (rangeToHeader r) | none => pure none)
+      = parseRangeHeader (rangeToHeader ⟨u, rs⟩) := by
+  rw [range_roundtrip_any u rs hu hne hr]
+  simp only [ok_bind]
+  exact range_roundtrip_any u rs hu hne hr
+
+theorem contentRange_normal_form (c : ContentRangeV) (h : CRangeOk c = true) :
+    (parseContentRangeHeader (contentRangeToHeader c) >>= fun r =>
+        match r with | some r => parseContentRangeHeader (contentRangeToHeader r) | none => pure none)
+      = parseContentRangeHeader (contentRangeToHeader c) := by
+  rw [contentRange_roundtrip_any c h]
+  simp only [ok_bind]
+  exact contentRange_roundtrip_any c h
+
+theorem csp_normal_form (d : Dict Str) (hok : ∀ x ∈ d, CspItemOk x = true) (hnd : (d.map (·.1)).Nodup) :
+    parseCsp (dumpCsp (parseCsp (dumpCsp d))) = parseCsp (dumpCsp d) := by
+  rw [csp_roundtrip_any d hok hnd]
+  exact csp_roundtrip_any d hok hnd
 
 end Wz.Props.C06
